@@ -113,3 +113,20 @@ Example filter_example :
   filter_pool ex_opts ex_pool =
   Ok [([65], [mkEntry [10] [[1]] false false false; mkEntry [12] [[2]; [1]] true false false])].
 Proof. vm_compute. reflexivity. Qed.
+
+(* ---- code-level tie (docs/py2coq.md): the per-entry decision loop of VariantPeptidePool.filter (`keep = []` ..
+        `for entry in peptide_entries:`: denylist / keep-canonical, keep-all-noncoding, keep-all-coding, expression
+        cut-off with the fusion / circRNA / splice exemptions, IndexError / KeyError / TypeError paths), translated
+        from /repo's current source by harness/translate/py2coq.py into coq/Gen/Py_VariantPeptidePool.v on every run,
+        computes exactly Filter.keep_list for every option set, denylist flag and entry list. ---- *)
+From MoPep Require Gen.Py_VariantPeptidePool.
+From MoPep Require Import Proofs.Py2CoqFilterProofs.
+
+Theorem code_filter_loop_translated : Py_VariantPeptidePool.py_keep_list_untranslated = false.
+Proof. vm_compute. reflexivity. Qed.
+Print Assumptions code_filter_loop_translated.
+
+Theorem code_keep_list_is_model : forall o d es,
+  Py_VariantPeptidePool.py_keep_list o d es = keep_list o d es.
+Proof. exact code_keep_list_is_model_l. Qed.
+Print Assumptions code_keep_list_is_model.
